@@ -91,6 +91,33 @@ def exec_scripts(modname, funcname, scripts, variants, procs=16):
 
 # ------------------------------------------------------------------------------------------------ validation
 def _validate_batch(args):
+    """One TLC run over a batch.  If TLC cannot EVALUATE the batch (an observed state or result outside what the
+    specification's operators are defined on - only code that differs from the verified tree produces such a thing),
+    the traces are re-run one by one and every trace TLC still chokes on gets a total verdict of its own: the
+    observation is rejected, not the run aborted."""
+    module, cfg, batch, workers, extra_env = args
+    try:
+        return _validate_batch_once(args)
+    except tlc.TLCError as e:
+        if len(batch) == 1 or "timed out" in str(e):
+            raise
+    printed, gen, dist, wall = [], 0, 0, 0.0
+    for t in batch:
+        try:
+            p, g, d_, w = _validate_batch_once((module, cfg, [t], 1, extra_env))
+            printed += p
+            gen, dist, wall = gen + g, dist + d_, wall + w
+        except tlc.TLCError as e:
+            if "timed out" in str(e):
+                raise
+            msg = " ".join(str(e).split())[:160]
+            printed.append({"verdict": "REJECT", "tid": t["tid"], "line": len(t["steps"]),
+                            "clause": "the observations of this trace cannot be evaluated by the specification"})
+            printed.append({"verdict": "DONE", "tid": t["tid"], "lines": len(t["steps"]), "bad": 1, "note": msg})
+    return printed, gen, dist, wall
+
+
+def _validate_batch_once(args):
     module, cfg, batch, workers, extra_env = args
     d = tempfile.mkdtemp(prefix="vh-trace-")
     try:
